@@ -93,6 +93,28 @@ class ScopedIter(Generic[T]):
             await aclose
 
 
+async def close_all(iterators: Iterable[Any]) -> None:
+    """
+    Close all ``iterators`` that can be closed, even if closing some of them fails
+
+    This is the flat equivalent of leaving nested ``async with ScopedIter(...)``
+    blocks: a failing or cancelled ``aclose`` does not prevent the remaining
+    iterators from being closed, and the most recent failure propagates.
+    """
+    failure: Optional[BaseException] = None
+    for iterator in iterators:
+        try:
+            aclose = iterator.aclose
+        except AttributeError:
+            continue
+        try:
+            await aclose()
+        except BaseException as exc:  # noqa: B036
+            failure = exc
+    if failure is not None:
+        raise failure
+
+
 def borrow(iterator: AsyncIterator[T]) -> AsyncGenerator[T, None]:
     """Borrow an async iterator for iteration, preventing it from being closed"""
     return (item async for item in iterator)
